@@ -201,7 +201,7 @@ impl M {
 			Op::GStopVar(_) => (Prio::Normal, vec![(Ctl::GracefulStop { sig: SIG_GSTOP }, t)]),
 			Op::SetHook => (Prio::Normal, vec![(Ctl::SetHook, t)]),
 			Op::UnsetHook => (Prio::Normal, vec![(Ctl::UnsetHook, t)]),
-			Op::SetErrH => (Prio::Normal, vec![(Ctl::SetErrH, t)]),
+			Op::SetErrH | Op::SetAsyncErrH => (Prio::Normal, vec![(Ctl::SetErrH, t)]),
 			Op::UnsetErrH => (Prio::Normal, vec![(Ctl::UnsetErrH, t)]),
 		};
 		let queue = match q {
